@@ -74,3 +74,30 @@ func VerifDeserialize(version string, data []byte) (outcome string, c VerifCM, d
 	}
 	return "ok", c, ""
 }
+
+// VerifDeserializeStats runs deserializeCompiledModule on data and reports the outcome, the number of bytes the call
+// allocated on the Go heap (runtime.MemStats.TotalAlloc around the call alone) and the reader's error text.
+func VerifDeserializeStats(version string, data []byte) (outcome string, heap int64, detail string) {
+	defer func() {
+		if e := recover(); e != nil {
+			outcome, detail = "panic", fmt.Sprint(e)
+		}
+	}()
+	rd := io.NopCloser(bytes.NewReader(data))
+	var m0, m1 runtime.MemStats
+	runtime.GC()
+	runtime.ReadMemStats(&m0)
+	cm, stale, err := deserializeCompiledModule(version, rd)
+	runtime.ReadMemStats(&m1)
+	heap = int64(m1.TotalAlloc - m0.TotalAlloc)
+	if err != nil {
+		return "error", heap, err.Error()
+	}
+	if stale {
+		return "stale", heap, ""
+	}
+	if len(cm.executable) > 0 {
+		_ = platform.MunmapCodeSegment(cm.executable)
+	}
+	return "ok", heap, ""
+}
